@@ -215,7 +215,71 @@ fn c03_items(ctx: &Ctx) -> Vec<(String, GrammarSpec, Vec<Vec<u8>>)> {
     for it in crate::gen::lark_family(ctx.tier.pick(4, 5)) {
         v.push((it.name.clone(), it.g.clone(), it.sentences.clone()));
     }
+    // parametric grammars (hand-written + generated C05 family) whose reference has no dead end: every viable
+    // prefix of <= 8 bytes over the grammar's letters (reference Earley set non-empty) extends to an accepted string
+    // within the explored graph -- the scope guard "no unproductive rules", decided on the reference, not on the engine
+    let mut pgs = crate::refs::cfg_earley::parametric_grammars();
+    pgs.extend(crate::refs::cfg_earley::generated_parametric());
+    for pg in pgs {
+        if reference_has_no_dead_end(&pg.bnf) {
+            v.push((pg.name.to_string(), GrammarSpec::Lark(pg.lark.clone()), vec![]));
+            ctx.count("parametric_items", 1);
+        } else {
+            ctx.count("parametric_items_with_reference_dead_end_or_open_closure", 1);
+        }
+    }
     v
+}
+
+fn reference_has_no_dead_end(bnf: &crate::refs::cfg_earley::Bnf) -> bool {
+    use crate::refs::cfg_earley::Earley;
+    use std::collections::HashMap;
+    let e = Earley::new(bnf);
+    let alphabet: Vec<u8> = b"abcdefpq!".to_vec();
+    let mut ids: HashMap<u64, usize> = HashMap::new();
+    let mut charts = vec![e.start()];
+    ids.insert(e.key(&charts[0]), 0);
+    let mut succ: Vec<Vec<usize>> = vec![vec![]];
+    let mut depth = vec![0usize];
+    let mut i = 0;
+    while i < charts.len() {
+        if charts.len() > 3000 {
+            return false; // closure not reached within the cap: not used
+        }
+        if depth[i] < 10 {
+            for b in alphabet.iter() {
+                if let Some(c) = e.step(&charts[i], *b) {
+                    let k = e.key(&c);
+                    let id = *ids.entry(k).or_insert_with(|| {
+                        charts.push(c);
+                        succ.push(vec![]);
+                        depth.push(depth[i] + 1);
+                        charts.len() - 1
+                    });
+                    succ[i].push(id);
+                }
+            }
+        } else {
+            return false; // open closure
+        }
+        i += 1;
+    }
+    // backward closure from accepting charts
+    let n = charts.len();
+    let mut good: Vec<bool> = (0..n).map(|i| e.accepting(&charts[i])).collect();
+    loop {
+        let mut changed = false;
+        for i in 0..n {
+            if !good[i] && succ[i].iter().any(|j| good[*j]) {
+                good[i] = true;
+                changed = true;
+            }
+        }
+        if !changed {
+            break;
+        }
+    }
+    good.iter().all(|g| *g)
 }
 
 pub fn run(ctx: &Ctx) -> Coverage {
